@@ -290,6 +290,14 @@ def cap_scenarios(shapes, count, nops, seed):
                 out.append(Scenario(sh, base + [f"reserve r0 {n}", "caps r0", f"promise r0 {n}", "capacity r0", "promise r0"], "reserve"))
                 out.append(Scenario(sh, base + [f"reserve_exact r0 {n}", "caps r0", f"promise r0 {n}", "capacity r0", "promise r0"], "reserve_exact"))
                 out.append(Scenario(sh, base + [f"reserve r0 {n}", "shrink_to_fit r0", "caps r0", "capacity r0", "promise r0"], "shrink"))
+                # a smaller request afterwards is satisfied already: it reserves nothing and takes nothing back
+                # (`Vec::reserve*`: "does nothing if capacity is already sufficient"), so the earlier promise still stands
+                if n >= 3 and pre in (0, 2, 7):
+                    for first in (f"reserve r0 {n}", f"reserve_exact r0 {n}"):
+                        for second in (f"reserve_exact r0 {n // 2}", f"reserve r0 {n // 3}", "reserve_exact r0 0"):
+                            out.append(Scenario(sh, base + [first, second, "caps r0", f"promise r0 {n}", "len r0"], "reserve-twice"))
+                    if pre == 0:
+                        out.append(Scenario(sh, [f"with_capacity r0 {n}", f"reserve_exact r0 {n // 2}", "reserve r0 1", "caps r0", f"promise r0 {n}", "len r0"], "reserve-twice"))
         # the reserved room is used up by any mix of growing operations, not only by push: reserve(n), grow by k <= n through
         # another operation, then the remaining n - k pushes must not reallocate either
         for pre in (0, 1, 5):
